@@ -711,7 +711,6 @@ func ruleSig2(c *Ctx, r *Reporter) {
 	r.guard(nClosed, 4, "closed=true stores in Stream methods")
 }
 
-
 // onlyCalledAfterKill: every static call site of fn (in package lungo) is dominated by a tomb.Kill call.
 func onlyCalledAfterKill(c *Ctx, fn *ssa.Function) bool {
 	sites := 0
